@@ -62,7 +62,9 @@ class TypesBuild:
         if not thorough:
             shs += [s for s in space.shapes(2, False) if s.depth == 2 and space.compilable(s)][::4]
         self.shapes = shs
-        nchunks = 16 if thorough else 8
+        # thorough: smaller crates and fewer parallel rustc processes (a 16-way build of 16 big
+        # chunks was killed for memory when other work shared the machine)
+        nchunks = 40 if thorough else 8
         self.chunks = []
         start = 0
         for ci, part in enumerate(chunks(shs, nchunks)):
@@ -116,7 +118,7 @@ class TypesBuild:
         if not os.path.exists(os.path.join(ws, "Cargo.lock")):
             import shutil
             shutil.copy(os.path.join(H.ROOT, "engines", "Cargo.lock"), os.path.join(ws, "Cargo.lock"))
-        p = H.cargo(ws, "build", ["--workspace"], json_messages=True)
+        p = H.cargo(ws, "build", ["--workspace"], json_messages=True, jobs=8 if self.tier == "thorough" else None)
         if p.returncode != 0:
             errs = H.compile_errors(p.stdout)
             self.report.cap("the generated code of the shared type space does not compile (C03's business, no verdict here): %s" % (json.dumps(errs[:3]) if errs else p.stderr[-600:]))
